@@ -7,31 +7,10 @@
 -/
 import Jmes.Model
 import Proofs.Sigs
+import Proofs.TableOK
 import Spec.Tables
 namespace Jmes.Props
 open Jmes TokType
-
-def cmpToks : List TokType := [eq, ne, lt, lte, gt, gte]
-def terminatorToks : List TokType :=
-  [eof, uident, qident, rbracket, rparen, comma, rbrace, number, current, expref, colon, unknown, jsonLiteral, stringLiteral]
-
-/-- The order facts the JMESPath precedence rules need, and that every
-    constant handed to a parse function is the power the rules prescribe. -/
-def TableOK (t : ParserTable) : Bool :=
-  let p := t.power
-  terminatorToks.all (fun k => p k == 0)
-  && decide (0 < p pipe) && decide (p pipe < p or) && decide (p or < p and) && decide (p and < p eq)
-  && cmpToks.all (fun k => p k == p eq)
-  && decide (p eq < p flatten) && decide (p flatten < t.projStop) && decide (t.projStop ≤ p star)
-  && decide (p star < p filter) && decide (p filter < p dot) && decide (p dot < p not)
-  && decide (p not < p lbrace) && decide (p lbrace < p lbracket) && decide (p lbracket < p lparen)
-  && t.ledPipe == p pipe && t.ledOr == p or && t.ledAnd == p and
-  && cmpToks.all (fun k => t.ledCmp.lookup k == some (p eq))
-  && t.ledFlatten == p flatten && t.ledDotSub == p dot && t.ledDotStar == p star
-  && t.ledBracketStar == p star && t.nudStar == p star && t.nudFlatten == p flatten
-  && t.nudBracketStar == p star && t.nudNot == p not && t.sliceProj == p star && t.filterRhs == p filter
-  && t.nudParen == 0 && t.msList == 0 && t.msHash == 0 && t.filterCond == 0 && t.top == 0
-  && t.ledArg == 0 && t.ledArgExpref == 0
 
 theorem spec_table_ok : TableOK Spec.table = true := by decide
 theorem generated_table_ok : TableOK Generated.table = true := by decide
